@@ -19,23 +19,25 @@ import (
 )
 
 type walletCase struct {
-	Type    int    `json:"type"`
-	HdPath  string `json:"hdpath"`
-	Bip39   int    `json:"bip39"`
-	Scrypt  int    `json:"scrypt"`
-	HdSubs  int    `json:"hdsubs"`
-	KeyCnt  int    `json:"keycnt"`
-	Testnet bool   `json:"testnet"`
-	Ltc     bool   `json:"ltc"`
-	AType   string `json:"atype"`
-	Seed    string `json:"seed"`             // hex of the `seed=` config value
-	File    string `json:"file"`             // hex of the .secret file / stdin
-	Stdin   bool   `json:"stdin"`            // password through -stdin instead of .secret
-	Flags   int    `json:"flags"`            // bit mask: option i goes on the command line instead of wallet.cfg
-	Twice   bool   `json:"twice"`            // run -l a second time and compare
-	Ask     int    `json:"ask,omitempty"`    // != 0: no seed file, File is TYPED at the prompts (see typed.go)
-	Term    string `json:"term,omitempty"`   // hex of the line terminator typed after the password (default 0a)
-	Second  string `json:"second,omitempty"` // hex: typed at the re-enter prompt instead of the password (mismatch)
+	Type    int        `json:"type"`
+	HdPath  string     `json:"hdpath"`
+	Bip39   int        `json:"bip39"`
+	Scrypt  int        `json:"scrypt"`
+	HdSubs  int        `json:"hdsubs"`
+	KeyCnt  int        `json:"keycnt"`
+	Testnet bool       `json:"testnet"`
+	Ltc     bool       `json:"ltc"`
+	AType   string     `json:"atype"`
+	Seed    string     `json:"seed"`             // hex of the `seed=` config value
+	File    string     `json:"file"`             // hex of the .secret file / stdin
+	Stdin   bool       `json:"stdin"`            // password through -stdin instead of .secret
+	Flags   int        `json:"flags"`            // bit mask: option i goes on the command line instead of wallet.cfg
+	Twice   bool       `json:"twice"`            // run -l a second time and compare
+	Ask     int        `json:"ask,omitempty"`    // != 0: no seed file, File is TYPED at the prompts (see typed.go)
+	Term    string     `json:"term,omitempty"`   // hex of the line terminator typed after the password (default 0a)
+	Second  string     `json:"second,omitempty"` // hex: typed at the re-enter prompt instead of the password (mismatch)
+	Chunks  []int      `json:"chunks,omitempty"` // -stdin: offsets at which the producer stops writing until the wallet has read (feed.go)
+	Others  []otherKey `json:"others,omitempty"` // lines of the .others file: imported keys, in front of the derived ones (feed.go)
 }
 
 var walletBin, walletTmp string
@@ -103,6 +105,9 @@ func runWallet(dir string, w *walletCase, extra ...string) walRun {
 	args = append(args, extra...)
 	if w.Stdin {
 		args = append(args, "-stdin")
+	}
+	if w.Stdin && len(w.Chunks) > 0 {
+		return runWalletChunked(dir, w, args)
 	}
 	cmd := exec.Command(walletBin, args...)
 	cmd.Dir = dir
@@ -425,6 +430,23 @@ func caseWallet(o *vlib.Oracle, c *rec, cs Case) {
 	if !w.Stdin && w.Ask == 0 {
 		os.WriteFile(filepath.Join(dir, ".secret"), unhx(w.File), 0600)
 	}
+	if len(w.Chunks) > 0 {
+		c.Hit(fmt.Sprintf("wallet-stdin-in-%d-writes", len(w.Chunks)+1))
+	}
+	imp, impLines := refOthers(w)
+	if len(w.Others) > 0 {
+		os.WriteFile(filepath.Join(dir, ".others"), w.othersFile(), 0600)
+		for _, ok := range w.Others {
+			switch {
+			case ok.Junk != "":
+				c.Hit("wallet-others-non-key-line")
+			case ok.Unc:
+				c.Hit("wallet-others-uncompressed-" + w.AType)
+			default:
+				c.Hit("wallet-others-compressed")
+			}
+		}
+	}
 	var sout []byte
 	if w.Scrypt != 0 && len(unhx(w.File)) > 0 && w.Bip39 != -1 {
 		sout, _ = scrypt.Key(w.pass(), []byte("Gocoin scrypt password salt"), 1<<uint(w.Scrypt), 8, 1, 32)
@@ -445,8 +467,24 @@ func caseWallet(o *vlib.Oracle, c *rec, cs Case) {
 	} else {
 		lst = runWallet(dir, w, "-l")
 	}
-	wtxt, werr := os.ReadFile(filepath.Join(dir, "wallet.txt"))
+	wtxtAll, werr := os.ReadFile(filepath.Join(dir, "wallet.txt"))
 	realOK := werr == nil && lst.code == 0
+	// the imported keys come first in the list; the model describes the derived ones: wtxt = the file without them
+	wtxt := wtxtAll
+	var allLines []string // every key line of wallet.txt (imported ones included)
+	if len(imp) > 0 {
+		var keep []string
+		for _, l := range strings.Split(string(wtxtAll), "\n") {
+			if l != "" && !strings.HasPrefix(l, "#") {
+				allLines = append(allLines, l)
+				if len(allLines) <= len(imp) {
+					continue
+				}
+			}
+			keep = append(keep, l)
+		}
+		wtxt = []byte(strings.Join(keep, "\n"))
+	}
 	if len(rep) == 0 || rep[0] == "bad-op" {
 		c.TieFail("wallet-oracle", "oracle refused the request", cs)
 		return
@@ -549,6 +587,32 @@ func caseWallet(o *vlib.Oracle, c *rec, cs Case) {
 			dl = append(dl, f)
 		}
 	}
+	dlAll := dl
+	if len(imp) > 0 && realOK {
+		// PROPERTY for the imported keys: line i of the list and of -dump * is imported key i, with its own address
+		bad := ""
+		if len(dlAll) < len(imp) || len(allLines) < len(imp) {
+			bad = fmt.Sprintf("%d keys imported from .others, the list has %d lines, -dump * %d", len(imp), len(allLines), len(dlAll))
+		}
+		for i := 0; bad == "" && i < len(imp); i++ {
+			k := imp[i]
+			switch {
+			case dlAll[i][0] != k.wif:
+				bad = fmt.Sprintf("key %d of -dump * is not the key imported on line %d of .others", i, i)
+			case dlAll[i][1] != k.p2kh:
+				bad = fmt.Sprintf("P2KH address %d (%s) is not the address of the imported key (%s)", i, dlAll[i][1], k.p2kh)
+			case dlAll[i][2] != k.label:
+				bad = fmt.Sprintf("label %d (%s) is not the imported key's (%s)", i, dlAll[i][2], k.label)
+			case allLines[i] != impLines[i]:
+				bad = fmt.Sprintf("line %d of wallet.txt is [%s], the imported key's %s line is [%s]", i, allLines[i], w.AType, impLines[i])
+			}
+		}
+		if bad != "" {
+			c.PropFail("others-listed-address", bad, cs)
+			return
+		}
+		dl = dl[len(imp):]
+	}
 	if !haveModel {
 	} else if len(dl) != len(mk) {
 		tieOK = false
@@ -625,6 +689,9 @@ func caseWallet(o *vlib.Oracle, c *rec, cs Case) {
 			bad = "mnemonic differs from BIP39"
 		}
 		if bad != "" {
+			if len(w.Chunks) > 0 {
+				bad += fmt.Sprintf(" (the seed password reached -stdin in %d writes; written at once it gives the reference keys)", len(w.Chunks)+1)
+			}
 			c.PropFail("wallet-spec", bad, cs)
 		}
 	}
@@ -681,11 +748,26 @@ func caseWallet(o *vlib.Oracle, c *rec, cs Case) {
 			c.Hit("model-lookup-other-index")
 		}
 	}
+	if len(imp) > 0 && w.AType != "pks" && len(allLines) == len(dlAll) {
+		// with imported keys in front: EVERY listed address (imported and derived) must lead back to the key of its own line
+		for i, l := range allLines {
+			addr := strings.SplitN(l, " ", 2)[0]
+			if strings.HasPrefix(addr, "-=") {
+				c.Hit("wallet-others-no-segwit-address-for-uncompressed")
+				addr = dlAll[i][1] // no segwit address: the key answers to its P2KH address only
+			}
+			one := runWallet(dir, w, "-dump", addr)
+			if got := lineAfter(one.stdout, "Private encoded:"); got != dlAll[i][0] {
+				c.PropFail("address-is-signing-key", fmt.Sprintf("wallet -dump %s (line %d of the list, %d imported keys in front) returns [%s], the key listed with that address is %s", addr, i, len(imp), got, dlAll[i][0]), cs)
+				break
+			}
+		}
+	}
 	if w.Twice {
 		again := runWallet(dir, w, "-l")
 		w2, _ := os.ReadFile(filepath.Join(dir, "wallet.txt"))
 		// (the stdout of a typed run carries the prompts as well: compare the key file only)
-		if (w.Ask == 0 && stripTimes(again.stdout) != stripTimes(lst.stdout)) || !bytes.Equal(w2, wtxt) {
+		if (w.Ask == 0 && stripTimes(again.stdout) != stripTimes(lst.stdout)) || !bytes.Equal(w2, wtxtAll) {
 			c.PropFail("deterministic", "two runs with the same seed and configuration give different output", cs)
 		}
 		c.Hit("wallet-run-twice")
